@@ -1250,6 +1250,10 @@ var host struct {
 	Each      func(map[string]ht.Pair, func(string, ht.Pair))
 	Rename    func(ht.Named) ht.Named
 	Visit     func(func(ht.Pair) (int, error)) int
+	IsPos     func(int) bool
+	Two       func(int) (int, int)
+	Add       func(int, int) int
+	Repeat    func(func(int) int, int) int
 }
 
 // Bind connects the program to its inputs and outputs.
@@ -1286,6 +1290,10 @@ func Bind(h map[string]interface{}) {
 	host.Each = h["Each"].(func(map[string]ht.Pair, func(string, ht.Pair)))
 	host.Rename = h["Rename"].(func(ht.Named) ht.Named)
 	host.Visit = h["Visit"].(func(func(ht.Pair) (int, error)) int)
+	host.IsPos = h["IsPos"].(func(int) bool)
+	host.Two = h["Two"].(func(int) (int, int))
+	host.Add = h["Add"].(func(int, int) int)
+	host.Repeat = h["Repeat"].(func(func(int) int, int) int)
 }`
 
 // e2eChunkSchemes cuts a program text into sequences of chunks for successive Eval calls:
